@@ -53,12 +53,16 @@ def replay_fdr(dt=0.5, damp=20.0, Temp=300.0):
         md.initialize(mol)
         md.Temp = 2 * Temp
         md.initialize(mol)  # a second initialisation (re-used driver, new target temperature)
+        sig2 = 2 * Temp / m * MD.CONSTANTS.VEL_SCALE**2
+        err = ((md.langevin_c1**2 * sig2 + md.langevin_c2**2) / sig2 - 1).abs().max().item()
+        # third stage: the same driver with a weaker coupling and a smaller step (settings changed after construction)
+        md.damp, md.timestep = 10 * damp, dt / 2
+        md.initialize(mol)
+        err2 = ((md.langevin_c1**2 * sig2 + md.langevin_c2**2) / sig2 - 1).abs().max().item()
     finally:
         MD.Molecular_Dynamics_Basic.initialize = saved
-    sig2 = 2 * Temp / m * MD.CONSTANTS.VEL_SCALE**2
-    err = ((md.langevin_c1**2 * sig2 + md.langevin_c2**2) / sig2 - 1).abs().max().item()
-    print("replay fluctuation-dissipation (dt=%g, damp=%g, T=%g then %g): max |c1^2 + c2^2 m/kT - 1| = %.3e" % (dt, damp, Temp, 2 * Temp, err))
-    return err > 1e-10
+    print("replay fluctuation-dissipation (dt=%g, damp=%g, T=%g then %g; then damp x10, dt/2): max |c1^2 + c2^2 m/kT - 1| = %.3e, %.3e" % (dt, damp, Temp, 2 * Temp, err, err2))
+    return max(err, err2) > 1e-10
 
 
 @obligation(PID, "a", title="fluctuation-dissipation: c1^2*sigma^2 + c2^2 = sigma^2 (sigma^2 = k_B T/m) for every dt, damping time, temperature and mass; the update is v' = c1 v + c2 xi; limits T=0 and padding atoms; coefficients follow the current settings when a driver is re-initialised")
@@ -81,7 +85,8 @@ def ob_a(ob):
 
     def check(c1, c2, Tv, tag):
         ax = _exp_axioms()
-        c1e = c1.a.reshape(-1)[0]
+        # a coefficient that is not symbolic was computed from the construction-time settings, not from the current ones
+        c1e = c1.a.reshape(-1)[0] if isinstance(c1, SymTensor) else S.rv(float(c1))
         for b in range(2):
             for a in range(3):
                 c2e = c2.a[b, a, 0]
@@ -100,6 +105,8 @@ def ob_a(ob):
     c1, c2 = _init_coeffs(md, mol)
     expect_feasible(ob, base + _exp_axioms(), "parameters")
     ok = check(c1, c2, T, "first initialisation")
+    if not ok:
+        return
     c1e = c1.a.reshape(-1)[0]
     # 0 < c1 < 1 (pure friction): with E = exp(s/2), s = -dt/damp < 0  -> needs monotonicity axiom exp(x)<1 for x<0
     arg = [x for (f, _), (v_, x) in S.ST.exps.items() if str(v_) == str(c1e)]
